@@ -298,6 +298,12 @@ class Ops:
             return z3.If(b.arg(0), zterm(self.mul(a, b.arg(1), kind), kind), zterm(self.mul(a, b.arg(2), kind), kind))
         if self.mul_mode == "exact":
             return zterm(a, kind) * zterm(b, kind)
+        # ite-lifting: mul(ite(c,x,y), b) = ite(c, mul(x,b), mul(y,b)) keeps the
+        # abstraction canonical when one side selects before multiplying and the other after
+        if _is_ite(a) and _ite_count(a) <= 6:
+            return z3.If(a.arg(0), zterm(self.mul(a.arg(1), b, kind), kind), zterm(self.mul(a.arg(2), b, kind), kind))
+        if _is_ite(b) and _ite_count(b) <= 6:
+            return z3.If(b.arg(0), zterm(self.mul(a, b.arg(1), kind), kind), zterm(self.mul(a, b.arg(2), kind), kind))
         a, b = zterm(a, kind), zterm(b, kind)
         if a.get_id() > b.get_id():
             a, b = b, a
@@ -323,6 +329,10 @@ class Ops:
                 return Fraction(0)
             if self.mul_mode == "exact":
                 return zreal(a) / zreal(b)
+            if _is_ite(b) and _ite_count(b) <= 6:
+                return z3.If(b.arg(0), zreal(self.div(a, b.arg(1), kind)), zreal(self.div(a, b.arg(2), kind)))
+            if _is_ite(a) and _ite_count(a) <= 6:
+                return z3.If(a.arg(0), zreal(self.div(a.arg(1), b, kind)), zreal(self.div(a.arg(2), b, kind)))
             return uf("div_f", _R, _R, _R)(zreal(a), zreal(b))
         # integer: C-style truncation
         if not is_sym(a) and not is_sym(b):
@@ -431,9 +441,20 @@ class Ops:
         a = zreal(a)
         if name == "log" and z3.is_app(a) and a.decl().name() == "exp":
             return a.arg(0)
-        if self._const_ite(a):
+        if self._const_ite(a) or (_is_ite(a) and _ite_count(a) <= 6):
             return z3.If(a.arg(0), zreal(self.unary(name, a.arg(1))), zreal(self.unary(name, a.arg(2))))
         return uf(name, _R, _R)(a)
+
+
+def _is_ite(t):
+    return is_sym(t) and z3.is_app_of(t, z3.Z3_OP_ITE)
+
+
+def _ite_count(t, budget=8):
+    """Number of ite nodes on the spine of nested ite branches (capped)."""
+    if not _is_ite(t) or budget <= 0:
+        return 0
+    return 1 + _ite_count(t.arg(1), budget - 1) + _ite_count(t.arg(2), budget - 1)
 
 
 def _jax_unary(name):
